@@ -166,6 +166,12 @@ def gen_case(seed, tier, index=0):
             "variants": [{"hashseed": rng.randrange(8), "steps": steps}]}
 
 
+def _without(obs, junk):
+    if not junk or "error" in obs:
+        return obs
+    return {k: ([x for x in v if x not in junk] if isinstance(v, list) else v) for k, v in obs.items()}
+
+
 def _holders(lines):
     out = {}
     rest = set()
@@ -191,8 +197,8 @@ def oracle(case, results):
     names = case.get("names") or [case["name"]]
     steps = case["variants"][0]["steps"]
     recs = results[0]["records"]
-    if not recs or not recs[0].get("obs"):
-        return vs
+    if not recs or not recs[0].get("obs") or steps[0].get("argv") != ["--version"]:
+        return vs  # the history must start with the step that only observes the initial state (the shrinker may drop it)
     empty = {"copyrights": [], "licenses": [], "contributors": []}
 
     def view(rec):
@@ -209,6 +215,7 @@ def oracle(case, results):
         return out
 
     D = {n: (v if v and "error" not in v else dict(empty)) for n, v in view(recs[0]).items()}
+    garbage = {}  # per file: lines that only exist because a write was cut short
     for k in range(1, len(steps)):
         if k >= len(recs):
             break
@@ -256,7 +263,15 @@ def oracle(case, results):
                     if (lost or want) and n in named:
                         vs.append({"sig": "C09/failed-write-reported-as-success",
                                    "detail": f"step {k} argv={st['argv']}: {wfault} fired, exit status 0, {n} lost {lost} and lacks the requested {want}"})
-                D[n] = obs if "error" not in obs else dict(empty)
+                if "error" in obs:
+                    D[n] = dict(empty)
+                else:
+                    # what a write that was cut short left behind may contain half a line that reads like a notice of
+                    # its own: only what the file declared before, or what this run was asked to add, counts as declared
+                    keys = {"copyrights": "copyrights", "licenses": "licenses", "contributors": "contributors"}
+                    for k, rk in keys.items():
+                        garbage.setdefault(n, set()).update(x for x in obs.get(k, []) if x not in D[n].get(k, []) and x not in req.get(rk, []))
+                    D[n] = {k: [x for x in obs.get(k, []) if x not in garbage.get(n, ())] for k in keys}
                 continue
             if n not in named or not ok_line:
                 # not named, skipped or failed for this file: what the file declares must at least not shrink
@@ -271,7 +286,7 @@ def oracle(case, results):
                         vs.append({"sig": "C09/unnamed-file-lost-information", "detail": f"step {k} argv={st['argv']}: {n} lost {lost}"})
                     elif lost and not opts.get("merge_copyrights"):
                         vs.append({"sig": f"C09/information-lost-without-success/{tclass}", "detail": f"step {k} argv={st['argv']}: {n} lost {lost}; stdout={out[-300:]}"})
-                    D[n] = obs
+                    D[n] = _without(obs, garbage.get(n))
                 continue
             if "error" in obs:
                 vs.append({"sig": f"C09/unreadable-after-success/{obs['error']}", "detail": f"step {k} argv={st['argv']} file={n}"})
@@ -309,7 +324,7 @@ def oracle(case, results):
                 lost_rest = sorted(rest_w - set(obs["copyrights"]))
                 if lost_rest:
                     vs.append({"sig": f"C09/merge/unparsed-line-lost/{tclass}", "detail": f"step {k} argv={st['argv']}: {n}: {lost_rest}"})
-            D[n] = obs
+            D[n] = _without(obs, garbage.get(n))
     return vs
 
 
